@@ -29,6 +29,7 @@ import (
 	"elaverif/harness/regnet"
 
 	"github.com/elastos/Elastos.ELA/blockchain"
+	"github.com/elastos/Elastos.ELA/blockchain/indexers"
 	"github.com/elastos/Elastos.ELA/common"
 	"github.com/elastos/Elastos.ELA/core/types"
 )
@@ -237,6 +238,45 @@ func exec(t []string) string {
 			delete(snapshot, bs.ID)
 		}
 		return "ok"
+	case "codec", "decode":
+		var res []uint16
+		var err error
+		if t[0] == "codec" {
+			l := make([]uint16, len(t)-1)
+			for i, x := range t[1:] {
+				v, e := strconv.ParseUint(x, 10, 16)
+				if e != nil {
+					panic("harness: bad index " + x)
+				}
+				l[i] = uint16(v)
+			}
+			res, err = indexers.VerifUint16Codec(l)
+		} else {
+			b := make([]byte, len(t)-1)
+			for i, x := range t[1:] {
+				v, e := strconv.ParseUint(x, 10, 8)
+				if e != nil {
+					panic("harness: bad byte " + x)
+				}
+				b[i] = byte(v)
+			}
+			res, err = indexers.VerifUint16Decode(b)
+		}
+		if err != nil {
+			return "err"
+		}
+		if len(res) == 0 {
+			return "-"
+		}
+		ss := make([]string, len(res))
+		for i, x := range res {
+			ss[i] = strconv.Itoa(int(x))
+		}
+		// property, judged on the implementation alone: what was stored is what is read back
+		if t[0] == "codec" && strings.Join(ss, " ") != strings.Join(t[1:], " ") {
+			pending = &hx.Violation{Kind: "unspent-list-codec-not-identity", Detail: "read back " + strings.Join(ss, ",")}
+		}
+		return strings.Join(ss, ",")
 	case "obs":
 		out := make([]string, len(t)-1)
 		for i, q := range t[1:] {
@@ -409,14 +449,20 @@ func (h *hist) randomTx(av []utxo, used map[string]bool, height uint32) *regnet.
 		}
 	case 8: // proposal / review with draft data
 		ts.Kind = []string{"pp", "rv"}[r.Intn(2)]
-		ts.PVer = 1
+		ts.PVer = byte(r.Intn(2)) // legacy payload version 0 carries the hash only (no data on the wire)
 		ts.PHashes = []string{h.freshHash()}
 		ts.PDatas = []string{h.data()}
+		if ts.PVer == 0 {
+			ts.PDatas = []string{"-"}
+		}
 	case 9:
 		ts.Kind = "tk"
-		ts.PVer = 1
+		ts.PVer = byte(r.Intn(2))
 		ts.PHashes = []string{h.freshHash(), h.freshHash()}
 		ts.PDatas = []string{h.data(), h.data()}
+		if ts.PVer == 0 {
+			ts.PDatas = []string{"-", "-"}
+		}
 	}
 	h.finishTx(ts, height)
 	return ts
@@ -476,7 +522,42 @@ func (h *hist) observe() {
 	h.g.Emit("obs %s", strings.Join(l, " "))
 }
 
+// codecOps: lists of output indexes through the stored form and back — boundary values of both bytes,
+// random lists, and raw byte strings (odd lengths are an error)
+func codecOps(g *hx.Gen) {
+	r := g.R
+	g.Emit("reset")
+	g.Emit("codec 0 1 255 256 257 261 511 512 4095 4096 65279 65280 65534 65535")
+	for i := 0; i < g.N(60, 600); i++ {
+		n := 1 + r.Intn(12)
+		xs := make([]string, n)
+		for k := range xs {
+			v := r.Intn(65536)
+			switch r.Intn(4) {
+			case 0:
+				v = r.Intn(300)
+			case 1:
+				v = 256*r.Intn(256) + r.Pick(0, 1, 255)
+			}
+			xs[k] = strconv.Itoa(v)
+		}
+		g.Emit("codec %s", strings.Join(xs, " "))
+	}
+	for i := 0; i < g.N(30, 300); i++ {
+		n := r.Intn(9)
+		xs := make([]string, n)
+		for k := range xs {
+			xs[k] = strconv.Itoa(r.Intn(256))
+		}
+		if n == 0 {
+			continue
+		}
+		g.Emit("decode %s", strings.Join(xs, " "))
+	}
+}
+
 func gen(g *hx.Gen) {
+	codecOps(g)
 	nh := g.N(40, 400)
 	for i := 0; i < nh; i++ {
 		oneHistory(g, g.N(14, 30))
